@@ -92,7 +92,9 @@ def model_method_names(hier, levels, i):
     has_dc = root != "Expression"
     for j, lv in enumerate(hier["levels"]):
         cls = levels[j][0]
-        if lv.get("mapper_method"):
+        if lv.get("mapper_method") == "<none>":
+            mm = inherited    # declares no handler name itself: whatever it inherits
+        elif lv.get("mapper_method"):
             mm = lv["mapper_method"]
         elif lv["kind"] == "D":
             mm = "map_" + snake(cls.__name__)
@@ -133,6 +135,8 @@ def resolve(name, overridden):
 def predict(names, overridden, has_hook, skip_own):
     cands = names[1:] if skip_own else names
     for nm in cands:
+        if nm is None:
+            continue
         r = resolve(nm, overridden)
         if r is not None:
             return r
@@ -218,7 +222,7 @@ def check_dispatch(spec):
                     x is not y for x, y in zip(a0, args)):
                 res.fail("arguments-not-passed-unchanged",
                          f"{mname}: handler got ({e0!r}, {a0!r}, {k0!r})")
-    own = resolve(names[0], set(overridden))
+    own = resolve(names[0], set(overridden)) if names[0] else None
     if own is None and predict(names, set(overridden), spec["hook"], False)[0] == "record":
         res.label("ancestor-handler-used")
         res.nontrivial = True
@@ -608,6 +612,20 @@ def check_combine(spec):
         if got != names:
             res.fail(f"{who}:variable-set-differs",
                      f"{who} on {e!r}: {sorted(got)} vs {sorted(names)}")
+            continue
+        # the same instance asked again about a part of what it has just collected
+        for _, sub in walk.children(e)[:2]:
+            res.compared()
+            try:
+                g2 = m(sub, tag, *extra)
+            except Exception:
+                continue
+            n2 = {(n.name, tag) for _, n in walk.occurrences(sub) if isinstance(n, p.Variable)}
+            if g2 != n2:
+                res.fail(f"{who}:reused-instance-differs",
+                         f"{who} after {e!r}: second call on {sub!r} gives {sorted(g2)}, "
+                         f"expected {sorted(n2)}")
+                break
     _classify(res, spec, e)
     res.sample = {"expr": repr(e)[:250], "leaves": sum(leaves.values())}
     return res
@@ -742,6 +760,9 @@ def dispatch_case(draw):
         flds = [f for f in ("extra", "tag", "weight") if f not in used][:nf]
         used.update(flds)
         mm = draw(st.sampled_from((None, None, "map_custom_a", "map_custom_b", "map_variable")))
+        if kind == "L" and root == "Expression" and not any(
+                lv["kind"] == "D" for lv in levels) and draw(st.integers(0, 2)) == 0:
+            mm = "<none>"      # an old-style class that never declared mapper_method
         levels.append({"kind": kind, "fields": flds, "mapper_method": mm})
     hier = {"root": root, "levels": levels,
             "tag": draw(st.sampled_from(("MyNode", "HTTPNode2D", "ABCFoo", "Tagged", "X",
@@ -750,6 +771,8 @@ def dispatch_case(draw):
     i = draw(st.integers(0, depth - 1))
     names = model_method_names(hier, lv, i)
     pool = sorted(set(n for n in names if n) | {"map_algebraic_leaf", "map_unrelated"})
+    if not any(names):
+        res_label = None
     overridden = draw(st.lists(st.sampled_from(pool), unique=True, max_size=len(pool)))
     if draw(st.integers(0, 2)) == 0 and names[0] in overridden:
         overridden.remove(names[0])
